@@ -142,7 +142,14 @@ def _phase(csd, unwrap=True):
 
 
 def phase(s, fs, window=None, waveform_averages=None, unwrap=True):
-    c = csd(s, window, waveform_averages)
+    s = np.asarray(s)
+    if waveform_averages is not None:
+        # Average the segments in the time domain (as in psd, trailing samples
+        # that do not fill a segment are dropped).
+        n = (s.shape[-1] // waveform_averages) * waveform_averages
+        new_shape = s.shape[:-1] + (waveform_averages, -1)
+        s = s[..., :n].reshape(new_shape).mean(axis=-2)
+    c = csd(s, window, detrend=None)
     return _phase(c, unwrap)
 
 
